@@ -58,14 +58,29 @@ def strategy(tier):
     )
     m = st.builds(
         lambda n, cells, cls, prior, bad, badpos, pu: {
-            "t": "matrix", "n": n, "cells": [[c % len(CELLS) for c in row[:n]] + [0] * (n - len(row[:n])) for row in (cells[:n] + [[]] * (n - len(cells[:n])))],
+            "t": "matrix", "n": n, "cells": _cells(n, cells),
             "cls": cls, "prior": [list(p) for p in prior], "bad": bad, "badpos": badpos, "prior_uni": [x % max(n, 1) for x in pu], "cache": bool(badpos & 1) ^ bool(cls & 2),
         },
-        st.integers(0, 5),
+        # sizes: small, and a few beyond the places where chunked / fast paths are usually put (65, 80, 257, 300)
+        st.sampled_from([0, 1, 2, 3, 4, 5] * 25 + [65, 80, 257, 300]),
         st.lists(st.lists(st.integers(0, 13), max_size=5), max_size=5),
         st.integers(0, 12), prior, st.sampled_from([0, 0, 0, 1, 2, 3, 4]), st.integers(0, 7), st.lists(st.integers(0, 4), max_size=3),
     )
     return st.one_of(d, m)
+
+
+def _cells(n, cells):
+    """n x n selector matrix from a generated pattern of <= 5 x 5: top-left corner; for big n also the bottom-right
+    corner (mirrored) and the far ends of the first row / column, everything else 0."""
+    m = [[c % len(CELLS) for c in row[:n]] + [0] * (n - len(row[:n])) for row in (cells[:n] + [[]] * (n - len(cells[:n])))]
+    if n > 5:
+        for i, row in enumerate(cells[:5]):
+            for j, c in enumerate(row[:5]):
+                m[n - 1 - i][n - 1 - j] = c % len(CELLS)
+                if i == 0:
+                    m[0][n - 1 - j] = c % len(CELLS)
+                    m[n - 1 - j][0] = c % len(CELLS)
+    return m
 
 
 def snap(vs):
